@@ -450,6 +450,29 @@ def install_observers():
     IkeSa.process_message = process_message
 
 
+XNUM = {'INIT': 34, 'AUTH': 35, 'CCSA': 36, 'INFO': 37}
+
+
+def forge_datagram(w, sa, m):
+    """Concrete datagram for an adversary message of the specification (C03): correct SPIs / exchange / flags / Message ID,
+    but cleartext, sealed with foreign keys, or sealed in the target's own direction (reflection)."""
+    import hashlib
+    import probes
+    hdr = {'spi_i': wd.untok(m['si'], 8), 'spi_r': wd.untok(m['sr'], 8), 'xchg': XNUM[m['x']], 'response': m['resp'],
+           'initiator': m['fi'], 'mid': m['mid']}
+    variant = hashlib.sha1(jkey(m).encode()).digest()[0] % 3
+    payloads = [[], [{'t': W.DELETE, 'proto': 1, 'spis': []}], [{'t': W.NONCE, 'data': b'\x07' * 20}]][variant]
+    prot = m['prot']
+    if prot == CLEAR:
+        return W.enc_message(hdr, payloads)
+    integ = probes.integ_id(sa.my_crypto)
+    if prot[0] == ['garbage']:
+        return W.enc_message(hdr, [], sk={'ke': b'\x5a' * len(sa.my_crypto.sk_e), 'ka': b'\xa5' * len(sa.my_crypto.sk_a), 'integ': integ,
+                                          'iv': b'\x33' * 16, 'inner': payloads})
+    # the target's own direction: what it would have sent itself
+    return W.enc_message(hdr, [], sk={'ke': sa.my_crypto.sk_e, 'ka': sa.my_crypto.sk_a, 'integ': integ, 'iv': b'\x44' * 16, 'inner': payloads})
+
+
 # ------------------------------------------------------------------------------------------------ one step
 def find_sa(w, t):
     e = t[0]
@@ -476,6 +499,13 @@ def perform(w, a):
             del w.net[k]
         ctx = m
         out = w.dispatch(e, data, w.peer_of(e))
+    elif name == 'AdvForge':
+        m = a['m']
+        sa = find_sa(w, a['s'])
+        if sa is None:
+            raise Mismatch('table', f'IKE_SA {a["s"]} is not listed')
+        w.net[jkey(m)] = forge_datagram(w, sa, m)
+        return None, None, None
     elif name == 'NetDrop':
         k = jkey(a['m'])
         if k not in w.net:
